@@ -360,6 +360,40 @@ func (s *vfSim) vfc15Mutate(st *vfc15Step) {
 		if id, ok := pickBroker(); ok {
 			s.setBrokerUp(id, true)
 		}
+	case "downSeeds":
+		// every broker a seed address points at goes down, as long as another broker stays up: the client must go on
+		// with the brokers it learnt from metadata
+		s.mu.Lock()
+		var seedIDs []int32
+		others := 0
+		for _, id := range vfc15SortedBrokerIDs(s) {
+			b := s.brokers[id]
+			isSeed := false
+			for _, a := range st.Topics {
+				if a == b.Addr {
+					isSeed = true
+				}
+			}
+			if isSeed {
+				seedIDs = append(seedIDs, id)
+			} else if b.Up {
+				others++
+			}
+		}
+		s.mu.Unlock()
+		if others > 0 {
+			for _, id := range seedIDs {
+				s.setBrokerUp(id, false)
+			}
+		}
+	case "upAll":
+		s.mu.Lock()
+		ids := vfc15SortedBrokerIDs(s)
+		s.mu.Unlock()
+		for _, id := range ids {
+			s.vfc15Heal(id)
+			s.setBrokerUp(id, true)
+		}
 	case "failNext":
 		if id, ok := pickBroker(); ok {
 			n := st.N
